@@ -391,7 +391,7 @@ class SampledDimension(Dimension):
                 position, offset, mode.name
             ))
 
-        if np.isclose(position, 0) and mode == IndexMode.Less:
+        if np.isclose(scaled_position, 0) and mode == IndexMode.Less:
             raise IndexError("Position {} is out of bounds for SampledDimension with mode {}".format(position, mode.name))
         index = int(np.round(scaled_position))
         if np.isclose(scaled_position, index):
